@@ -44,8 +44,9 @@ ATOMS = {
     "req.server_hostname": TAINTED, "req.headers": TAINTED,
     "req.environ": TAINTED, "path": TAINTED, "error": TAINTED,
     "exc_type": TAINTED, "exc_value": TAINTED, "exc_traceback": TAINTED,
-    # token characters / numbers
-    "req.method": TOKEN, "code": TOKEN, "req.server_port": TOKEN,
+    # token characters / numbers ("<function>:<name>" = only in that function)
+    "req.method": TOKEN, "not_implemented:code": TOKEN,
+    "req.server_port": TOKEN,
     # developer / configuration / server provided
     "req.remote_host": TRUSTED, "req.remote_addr": TRUSTED,
     "req.server_software": TRUSTED, "req.server_scheme": TRUSTED,
@@ -67,22 +68,23 @@ CALLS = {
 STR_METHODS = {"rstrip", "lstrip", "strip", "lower", "upper", "split",
                "format", "copy", "encode", "hexdigest"}
 MUTATORS = {"append", "sort", "update"}
-# classes of the loop variables, keyed by the source text of the iterable
+# classes of the loop variables, keyed by "<function>:<source text of the
+# iterable>"; an iterable that is a local variable has the class of that
+# variable, anything else unknown is Tainted
 ITERS = {
-    "index": TAINTED,                                       # os.listdir names
-    "handlers_view(app.routes)": (TAINTED, TRUSTED, TRUSTED),
-    "handlers_view(app.regular_routes, False)":
+    "debug_info:handlers_view(app.routes)": (TAINTED, TRUSTED, TRUSTED),
+    "debug_info:handlers_view(app.regular_routes, False)":
         (TAINTED, TRUSTED, (TRUSTED, TRUSTED, TAINTED)),
-    "c": (TRUSTED, TRUSTED),                                # (group, converter)
-    "handlers_view({'x': app.defaults})": (TRUSTED, TRUSTED, TRUSTED),
-    "handlers_view(_tmp_shandlers)": (TOKEN, TRUSTED, TRUSTED),
-    "zip(pre, post)": (TRUSTED, TRUSTED),
-    "app.filters.items()": (TRUSTED, (TAINTED, TRUSTED)),
-    "req.headers.items()": (TOKEN, TAINTED),                # field-name = token
-    "req.get_options().items()": (TRUSTED, TAINTED),
-    "sorted(environ.items())": (TOKEN, TAINTED),            # CGI/WSGI key names
-    "default_states.items()": (TOKEN, TRUSTED),
-    "app.states.items()": (TOKEN, TRUSTED),
+    "debug_info:handlers_view({'x': app.defaults})":
+        (TRUSTED, TRUSTED, TRUSTED),
+    "debug_info:handlers_view(_tmp_shandlers)": (TOKEN, TRUSTED, TRUSTED),
+    "debug_info:zip(pre, post)": (TRUSTED, TRUSTED),
+    "debug_info:app.filters.items()": (TRUSTED, (TAINTED, TRUSTED)),
+    "debug_info:req.headers.items()": (TOKEN, TAINTED),   # field-name = token
+    "debug_info:req.get_options().items()": (TRUSTED, TAINTED),
+    "debug_info:sorted(environ.items())": (TOKEN, TAINTED),  # CGI/WSGI names
+    "debug_info:default_states.items()": (TOKEN, TRUSTED),
+    "debug_info:app.states.items()": (TOKEN, TRUSTED),
 }
 HTML_ESCAPE_BODY = ("Return(value=Call(func=Attribute(value=Constant(value=''), "
                     "attr='join', ctx=Load()), args=[GeneratorExp(elt=Call("
@@ -142,6 +144,7 @@ class Loop:
     body: list
     it: str
     line: int = field(default=0, compare=False)
+    target: str = field(default="", compare=False)
 
 
 def classes_of(nodes):
@@ -169,7 +172,7 @@ def norm(nodes):
         elif isinstance(n, Cond):
             n = Cond(n.k, n.test, norm(n.a), norm(n.b), n.line)
         elif isinstance(n, Loop):
-            n = Loop(n.sep, norm(n.body), n.it, n.line)
+            n = Loop(n.sep, norm(n.body), n.it, n.line, n.target)
         out.append(n)
     return out
 
@@ -337,6 +340,8 @@ class Fn:
     # -- classification of atomic expressions
     def atom(self, e):
         src = ast.unparse(e)
+        if self.name + ":" + src in ATOMS:
+            return ATOMS[self.name + ":" + src]
         if src in ATOMS:
             return ATOMS[src]
         if isinstance(e, ast.Attribute) and e.attr in ATTR_SUFFIX:
@@ -501,12 +506,15 @@ class Fn:
         gen = g.generators[0]
         env2 = dict(env)
         self.bind(gen.target, self.iter_classes(gen.iter, env), env2)
-        return Loop(sep, self.ir(g.elt, env2), ast.unparse(gen.iter), g.lineno)
+        return Loop(sep, self.ir(g.elt, env2), ast.unparse(gen.iter), g.lineno,
+                    ast.unparse(gen.target))
 
     def iter_classes(self, it, env):
-        src = ast.unparse(it)
+        src = self.name + ":" + ast.unparse(it)
         if src in ITERS:
             return ITERS[src]
+        if isinstance(it, ast.Name) and it.id in env:
+            return self.classify(it, env)
         if isinstance(it, ast.Call) and ast.unparse(it.func) == "enumerate" \
                 and len(it.args) == 1:
             return (TOKEN, self.classify(it.args[0], env))
@@ -677,7 +685,7 @@ class Fn:
             if new is None or new[:len(old)] != old:
                 bad(s, "loop rewrites `%s` instead of appending to it" % v)
             env[v] = old + [Loop("", new[len(old):], ast.unparse(s.iter),
-                                 s.lineno)]
+                                 s.lineno, ast.unparse(s.target))]
         return "next"
 
     def returned(self, v, env):
